@@ -38,7 +38,9 @@ func primeFieldParamsMatch(a primeCurveParameters, b asn1struct.ECParameters) bo
 		case 0x00:
 			return len(b.Base) == 1 && bytes.Equal(a.BaseX, []byte{0}) && bytes.Equal(a.BaseY, []byte{0})
 		case 0x02, 0x03:
-			return bytes.Equal(a.BaseX, b.Base[1:])
+			// compressed point: the prefix carries the parity of y (02 even, 03 odd)
+			return len(a.BaseY) > 0 && b.Base[0] == 0x02+(a.BaseY[len(a.BaseY)-1]&1) &&
+				bytes.Equal(a.BaseX, b.Base[1:])
 		case 0x04:
 			return bytes.Equal(append(a.BaseX, a.BaseY...), b.Base[1:])
 		}
